@@ -719,7 +719,13 @@ class LibMixin:
         if isinstance(v, (int, float)):
             import math
             return math.sqrt(v)
-        return self.sqrt_fn(zreal(v))
+        # mathematical square root (T7): non-negative, squares back to its argument, ValueError below zero
+        zv = zreal(v)
+        if self.branch(zv < 0):
+            py_raise('ValueError', 'math domain error')
+        r = self.sqrt_fn(zv)
+        self.assume(z3.And(r >= 0, r * r == zv))
+        return r
 
     def lex_less(self, a, b):
         r = z3.BoolVal(False)
